@@ -4,7 +4,7 @@ sys.path.insert(0, os.path.dirname(os.path.dirname(os.path.abspath(__file__))))
 import vlib
 
 MANIFEST = dict(
-    level=("proof", "Eleven Coq theorems over an executable model of path.c's directory walk (chains of any length: "
+    level=("proof", "Twelve Coq theorems over an executable model of path.c's directory walk (chains of any length: "
            "secure <-> every directory acceptable, first offender and complaint reported), the key/seed/log file "
            "vetting of conf.c/random.c/munged.c, the order of the start-up checks and the mode/umask recipe of the "
            "five created files (all 512 umasks, foreground and daemon mode); flag values, permission bits, the flags "
@@ -15,7 +15,9 @@ MANIFEST = dict(
     note="Trusted: Coq kernel+vm_compute, facts probe (strace parser), extraction, harness/driver glue, Linux "
          "semantics of umask/bind; the C code is modelled and tied by differential testing, not verified. "
          "TOCTOU between the checks and the later open() calls is outside the model. Observation proved and "
-         "replayed: a pre-existing log file keeps its mode (group/other read bits are not examined).",
+         "replayed: a pre-existing log file keeps its mode (group/other read bits are not examined). Candidate "
+         "finding proved and replayed on every run: a FIFO at the seed path wedges the start (random.c opens the "
+         "seed without O_NONBLOCK); the theorem is stated so that it checks before and after the repair.",
     technique="Coq proof (induction over the chain + 512-value sweep lifted by lemma) + translator (probe, strace, "
               "--wrap) + differential correspondence on real trees and real daemon starts")
 
@@ -208,12 +210,15 @@ def gen_daemon_cases(ctx):
         kmodes = sorted({0, 0o600, 0o400, 0o200, 0o700, 0o500, 0o640, 0o620, 0o610, 0o660, 0o604, 0o602, 0o601,
                          0o606, 0o644, 0o666, 0o777, 0o711, 0o611, 0o066, 0o022, 0o044, 0o060, 0o006}
                         | {1 << b for b in range(9)} | {0o600 | (1 << b) for b in range(6)})
-    for m in kmodes:
+    for m in range(512):
         for typ in ("reg", "symlink"):
             for owner in ("euid", "other"):
+                if m not in kmodes and not (typ == "reg" and owner == "euid"):
+                    continue        # quick: all 512 modes for the regular key of euid, a boundary sample otherwise
                 if not T and typ == "symlink" and owner == "other" and m not in (0o600, 0o640, 0o604):
                     continue
-                e = EUID2 if (m + len(typ)) % 5 == 0 else 0
+                # (a non-root daemon cannot open a key it may not read: file access control is outside the model)
+                e = EUID2 if (m + len(typ)) % 5 == 0 and (m & 0o400) else 0
                 c = base_case(fg=bool(m & 1) ^ (typ == "reg"), euid=e, umask=0o022)
                 c["key"] = {"type": typ, "uid": e if owner == "euid" else FOREIGN, "gid": 0, "mode": m}
                 add("key", c)
@@ -261,16 +266,25 @@ def gen_daemon_cases(ctx):
                     ch[pos] = (owner, g, m)
                     c["dirs"][site] = ch
                     add("dir", c)
+    if not T:       # quick: a boundary sample at every position of depth-5 chains as well
+        for site in SITES:
+            for pos in range(5):
+                for (owner, g, m, tg) in ((FOREIGN, OGID, 0o755, None), (0, OGID, 0o775, None), (0, OGID, 0o757, None),
+                                          (0, OGID, 0o1777, None), (0, TGID, 0o775, TGID), (0, OGID, 0o775, TGID),
+                                          (0, TGID, 0o775, None), (0, OGID, 0o1775, None)):
+                    c = base_case(fg=(site != "log") and bool(pos & 1), euid=0, tg=tg, depth=5)
+                    ch = list(c["dirs"][site])
+                    ch[pos] = (owner, g, m)
+                    c["dirs"][site] = ch
+                    add("dir", c)
     # --- inherited umasks
-    if T:
-        umasks = list(range(512))
-    else:
-        umasks = [0o000, 0o777, 0o077, 0o022, 0o002, 0o027, 0o177, 0o007, 0o070, 0o700, 0o133, 0o111, 0o222, 0o444,
-                  0o666, 0o555, 0o333, 0o026, 0o037, 0o137, 0o277, 0o377, 0o577, 0o677]
-    for u in umasks:
+    # all 512 in both tiers (a start/stop costs ~20 ms); thorough adds a non-root daemon
+    for u in range(512):
         for fg in (True, False):
             c = base_case(fg=fg, umask=u, euid=0)
             add("umask", c)
+            if T:
+                add("umask", base_case(fg=fg, umask=u, euid=EUID2))
             if u in (0o000, 0o077, 0o777, 0o027) or T and u % 16 == 5:
                 c = base_case(fg=fg, umask=u, euid=0)
                 c["seed"] = {"type": "reg", "uid": 0, "gid": 0, "mode": 0o600}
@@ -287,6 +301,10 @@ def gen_daemon_cases(ctx):
                 c = base_case(fg=bool(m & 0o040) or typ == "reg" and owner == "euid", euid=e)
                 c["seed"] = {"type": typ, "uid": e if owner == "euid" else FOREIGN, "gid": 0, "mode": m}
                 add("seed", c)
+    for fg in (True, False):      # a FIFO in the seed's place: vetted like any non-regular file, or the start blocks
+        c = base_case(fg=fg)
+        c["seed"] = {"type": "fifo", "uid": 0, "gid": 0, "mode": 0o600}
+        add("seed", c)
     for m in (0o600, 0o644):      # with --force an insecure seed directory is tolerated; the file is still vetted
         for dm in (0o775, 0o757):
             c = base_case(fg=True, force=True)
@@ -329,7 +347,7 @@ def gen_daemon_cases(ctx):
             c["lock"] = {"type": "reg", "uid": 0, "gid": 0, "mode": 0o644}
         add("force", c)
     # --- random combinations (order of the checks, several faults at once)
-    for _ in range(3000 if T else 150):
+    for _ in range(8000 if T else 150):
         e = rng.choice((0, 0, 0, EUID2))
         d = rng.randrange(1, 4)
         c = base_case(fg=rng.random() < 0.5, euid=e, tg=rng.choice((None, TGID)), umask=rng.randrange(512), depth=d)
@@ -517,8 +535,9 @@ def run_daemon_case(exe, top, idx, case):
             p = subprocess.Popen(argv, stdin=subprocess.DEVNULL, stdout=ef, stderr=ef, cwd="/", **kw)
         started = False
         t0 = time.time()
+        limit = 3 if (case["seed"] or {}).get("type") == "fifo" else 10
         if case["fg"]:
-            while time.time() - t0 < 10:
+            while time.time() - t0 < limit:
                 if p.poll() is not None:
                     break
                 try:
@@ -530,7 +549,7 @@ def run_daemon_case(exe, top, idx, case):
                 time.sleep(0.004)
         else:
             try:
-                started = (p.wait(timeout=10) == 0)
+                started = (p.wait(timeout=limit) == 0)
             except subprocess.TimeoutExpired:
                 pass
         obs = {"started": started}
@@ -635,6 +654,10 @@ def daemon_property(case, obs, tail):
             v = spec_chain(euid, tg, s == "log", chain)
             if v:
                 why_refuse.append("%s directory #%d from the leaf: %s %s" % (s, v[0], v[1], chain[v[0]]))
+    if obs.get("hung"):
+        if (case["seed"] or {}).get("type") == "fifo":
+            return None     # candidate finding reported as an observation (C16_seed_fifo_outcome), see run()
+        return "munged neither started nor refused within 10 s"
     if obs["started"]:
         if why_refuse:
             return "munged starts without --force although: " + "; ".join(why_refuse[:3])
@@ -728,7 +751,7 @@ def run(ctx):
         "symlink / with ../ detours / via a file leaf; x euid {0,4242} x trusted group set/unset x flags {0,1}), "
         "path_is_accessible, path_dirname; (b): munged rebuilt from /repo started in generated trees (key modes x "
         "types x owners, each attribute combination on each ancestor of each of the five paths, umasks x fg/daemon "
-        "mode, existing seed/log/lock files, --force, random combinations); each answer judged by an independent "
+        "mode for all 512 umasks, existing seed/log/lock files, --force, random combinations); each answer judged by an independent "
         "statement of the property and diffed with the extracted model; non-trivial = every case")
     oracle = vlib.build_oracle(ctx, "path")
     R = vlib.REPO
@@ -890,6 +913,11 @@ def run(ctx):
                 break
         if obs_log:
             ctx.notes.append("observation replayed on the real daemon: " + obs_log)
+        hung = [r for r in results if "obs" in r and r["obs"].get("hung") and (r["case"]["seed"] or {}).get("type") == "fifo"]
+        if hung:
+            ctx.notes.append("candidate finding replayed on the real daemon (%d runs): a FIFO at the seed path blocks "
+                             "the start for ever in open(O_RDONLY), SIGTERM is swallowed by the EINTR retry loop "
+                             "(C16_seed_fifo_outcome; proposed repair seeded/fixes/c16-seed-fifo-nonblock.diff)" % len(hung))
     ctx.cov["input_distribution"] = dist
 
     # ---------------- verdict
